@@ -45,7 +45,7 @@ TABLE = {
              "The liveness half (ranking function) is not proved: PARTIAL."),
     "C16": e("Lean theorems: every locking API function is `withMutex body` (shape regenerated from the source); for all states and lock/unlock answers the events are lock alone (state unchanged, ERROR_MUTEX_LOCK) or lock, body, unlock with ERROR_MUTEX_UNLOCK iff unlock failed.",
              "DESIGN.md 8 C16", "Lean 4 structural bracket theorem + translator (lock/body/unlock shape) + correspondence with failing locks"),
-    "C17": e("PARTIAL. Lean theorems over an abstract lock semantics (threads running lock;body;unlock operations): mutual exclusion of bodies and linearizability to a sequential history, to which C13 applies. The C memory model, the real lock and the scheduler are outside Lean; a TSan stress run validates that part.",
+    "C17": e("PARTIAL. Lean theorems over an abstract lock semantics (threads running lock;body;unlock operations): mutual exclusion of bodies and linearizability to a sequential history, to which C13 applies. The C memory model, the real lock and the scheduler are outside Lean; every check builds harness/threads.c with ThreadSanitizer from the working tree and runs 1-8 producer threads against one service thread with a real pthread mutex at ring capacities 1, 2 and 8 (no race report; accepted triggers = delivered events per producer), plus a control run without mutex in which the detector must fire.",
              "DESIGN.md 8 C17, 13", "Lean 4 abstract lock semantics (mutual exclusion, linearizability) + TSan thread stress",
              "Partial by nature: thread scheduling and the C memory model are not in the model."),
     "C18": e("Lean theorems: with the generated is_busy/is_hold, is_busy = OK implies both machines idle, which by the line-coupling and flush invariants means no partial non-blank line, nothing outstanding and no unit in progress; is_hold = HOLD iff the command machine is in HOLD.",
